@@ -132,7 +132,7 @@ func c15DBTypes(d string) []string {
 	}
 	return []string{"integer", "int", "bigint", "tinyint", "real", "double", "float", "numeric", "numeric(10,2)", "decimal(10,5)", "text", "varchar(255)", "character(20)", "blob", "boolean", "bool", "date", "datetime", "json", "uuid", "varchar", "clob",
 		// type names of several words, with and without a size
-		"varying character", "varying character(255)", "native character", "native character(70)", "double precision", "unsigned big int", "nchar(55)", "nvarchar(100)", "int2", "int8", "smallint", "mediumint"}
+		"varying character", "varying character(255)", "native character", "native character(70)", "double precision", "unsigned big int", "nchar(55)", "nvarchar(100)", "int2", "int8", "smallint", "mediumint", "Point3D", "MyType(3)"}
 }
 
 // c15Invalid: parameter values the database itself rejects (the grid is not type-aware otherwise).
@@ -641,6 +641,13 @@ func c15AttrTables(d *dialectAPI, r *hx.Rand) []*schema.Table {
 	case "mysql":
 		tc.AddChecks(schema.NewCheck().SetName("not_enforced").SetExpr("(a <> 7)").AddAttrs(&mysql.Enforced{V: false}), schema.NewCheck().SetName("enforced").SetExpr("(a <> 8)").AddAttrs(&mysql.Enforced{V: true}))
 		tc.AddColumns(schema.NewColumn("pi").SetType(&schema.FloatType{T: "double"}).SetDefault(&schema.Literal{V: "3.14159265358979"}))
+		// enum / varchar defaults that look like numbers, the way MySQL reports them (no quotes)
+		tc.AddColumns(
+			schema.NewColumn("e01").SetType(&schema.EnumType{T: "enum", Values: []string{"01", "1", "1.0"}}).SetDefault(&schema.Literal{V: "01"}),
+			schema.NewColumn("e10").SetType(&schema.EnumType{T: "enum", Values: []string{"01", "1", "1.0", "1e1"}}).SetDefault(&schema.Literal{V: "1.0"}),
+			schema.NewColumn("ee1").SetType(&schema.EnumType{T: "enum", Values: []string{"1e1", "10"}}).SetDefault(&schema.Literal{V: "1e1"}),
+			schema.NewColumn("s007").SetType(&schema.StringType{T: "varchar", Size: 10}).SetDefault(&schema.Literal{V: "007"}),
+		)
 	case "postgres":
 		tc.AddChecks(schema.NewCheck().SetName("no_inherit").SetExpr("(a <> 7)").AddAttrs(&postgres.NoInherit{}))
 		tc.AddColumns(schema.NewColumn("pi").SetType(&schema.FloatType{T: "double precision", Precision: 53}).SetDefault(&schema.Literal{V: "3.14159265358979"}))
@@ -750,5 +757,7 @@ func c15Constructed(dialect string) []schema.Type {
 		}
 	}
 	return []schema.Type{&schema.StringType{T: "text"}, &schema.DecimalType{T: "numeric"}, &schema.DecimalType{T: "decimal", Precision: 10, Scale: 5}, &schema.FloatType{T: "real"}, &schema.BinaryType{T: "blob"},
-		&schema.StringType{T: "varying character", Size: 255}, &schema.StringType{T: "varying character"}, &schema.StringType{T: "native character", Size: 70}, &schema.FloatType{T: "double precision"}, &schema.IntegerType{T: "unsigned big int"}}
+		&schema.StringType{T: "varying character", Size: 255}, &schema.StringType{T: "varying character"}, &schema.StringType{T: "native character", Size: 70}, &schema.FloatType{T: "double precision"}, &schema.IntegerType{T: "unsigned big int"},
+		// types Atlas does not know are kept verbatim, letter case included
+		&sqlite.UserDefinedType{T: "Point3D"}, &sqlite.UserDefinedType{T: "GEOMETRY_Z"}}
 }
